@@ -6,6 +6,8 @@ import (
 	"strings"
 
 	vs "metacontroller/pkg/internal/verifsim"
+
+	"k8s.io/client-go/tools/cache"
 )
 
 func genRelatedRules(c *vs.Case, namespacedParent bool) ([]map[string]any, bool, string) {
@@ -271,6 +273,29 @@ func PropC15(c *vs.Case, f Factory, kind string) error {
 					return vs.Violf("C15/related-object-does-not-wake-parent", "%s is in the parent's related map (rules %v) but an update of it does not enqueue the parent", ObjID(o), rules)
 				}
 				c.Class("agreement-checked")
+				// ... and so does its disappearance, also when the informer only learns of it from a fresh
+				// list (the handler is then given a tombstone instead of the object)
+				env.W.Queue.Take()
+				key := metaStr(o, "name")
+				if ns := metaStr(o, "namespace"); ns != "" {
+					key = ns + "/" + key
+				}
+				if c.Bool() {
+					sink.RelatedDelete(u(o))
+				} else {
+					sink.RelatedDelete(cache.DeletedFinalStateUnknown{Key: key, Obj: u(o)})
+					c.Class("related-delete-tombstone")
+				}
+				woke = false
+				for _, q := range env.W.Queue.Take() {
+					if q.Op == "Add" && q.Key == env.ParentKey() {
+						woke = true
+					}
+				}
+				countCalls(env.W.Hooks.Take())
+				if !woke {
+					return vs.Violf("C15/related-object-does-not-wake-parent", "%s is in the parent's related map (rules %v) but its deletion does not enqueue the parent", ObjID(o), rules)
+				}
 			}
 		}
 	}
